@@ -1,13 +1,16 @@
 #!/usr/bin/env python3
 """Re-runs every kept seeded change against the check of its property (scratch worktree, /repo
-untouched) and prints one line each; exit 1 if a seed that was reported is no longer."""
+untouched; all of them, or the ids given) and prints one line each; exit 1 if a seed that was reported is no longer."""
 import glob, json, os, sys
 sys.path.insert(0, "/verif/tools")
 import seedlib
 os.environ["SEED_SCRATCH"] = "1"
 bad = 0
+only = set(sys.argv[1:])
 for f in sorted(glob.glob("/verif/seeded/*/meta.json")):
     m = json.load(open(f))
+    if only and m["id"] not in only:
+        continue
     d = os.path.dirname(f)
     with seedlib.patched(f"{d}/patch.diff") as (env, how):
         props = sorted({k.split("/")[0] for k in m["caught_by"]}) or [m["property"]]
